@@ -136,7 +136,7 @@ def fnum(x):
 
 rate = st.sampled_from([0, 10, 50, 100, 250.5, 1000, 1e4])
 press = st.sampled_from([20, 50, 100, 150.5, 250, 400])
-frac = st.sampled_from([0.1, 0.25, 0.5, 0.75, 0.9, 1.0])
+frac = st.sampled_from([0.1, 0.25, 0.5, 0.75, 0.9, 1.0, 0.0, 1e-3])
 
 
 @st.composite
